@@ -597,13 +597,21 @@ def rule_if_varmap(cx, rep, port):
             if not set(POS_PARSERS) <= did:
                 ok_pos = False
             if '<names>' in did:
+                # normalised names need both spellings (a.name and a["name"]); direct mode needs the bare names
+                if 'map_variables_directly' not in did and not {'parse_dictionary_variables', 'parse_attribute_variables'} <= did:
+                    half = sorted({'parse_dictionary_variables', 'parse_attribute_variables'} - did)
+                    rep.violated(key + ' both spellings', q.node if q.node is not None else fd, 'a path registers name-based variables without {}: one of the two spellings a.name / a["name"] is unknown through this front end only'.format(half[0]))
+                    bad = 'reported'
+                    break
                 continue
             if pathsem.consistent(q, leaf):
                 extra = [node_text(t_, 80) for t_, pol in q.conds if pathsem.eval_cond(t_, leaf) is None]
                 bad = (q, extra)
                 break
         rep.decide(ok_pos, key + ' positional', fd, 'a1 / a[1] style variables are registered on every path', 'a path of get_variables_map returns without registering the positional variables')
-        if bad is not None:
+        if bad == 'reported':
+            pass
+        elif bad is not None:
             rep.violated(key + ' names', bad[0].node, 'with column names present the name-based variables (a.name, a["name"]) are still skipped when `{}`: the query then binds differently (or fails to parse) through this front end only'.format(' / '.join(bad[1]) or 'always'))
         else:
             rep.holds(key + ' names', fd, 'name-based variables are registered whenever {} is present, whatever else holds'.format(' / '.join(sorted(sources - {'self.has_header'})) or 'the header'))
